@@ -289,6 +289,14 @@ func cmdCheck(args []string) int {
 			broken = append(broken, name+": "+sr.Broken)
 		}
 		for _, f := range sr.Failures {
+			// a failure of an executed check that is a recorded known finding (matched by its full name) is reported as such
+			if kf := matchKnown(known, prop, &OblResult{Name: name + "/" + f.Name}); kf != nil {
+				line := fmt.Sprintf("KNOWN-FINDING: property=%s %s [%s] %s", prop, name+"/"+f.Name, kf.Site, kf.What)
+				if !slices.Contains(knownSeen, line) {
+					knownSeen = append(knownSeen, line)
+				}
+				continue
+			}
 			violations = append(violations, Violation{Obligation: name + "/" + f.Name, Reason: f.Detail, Replay: f.Replay})
 		}
 	}
@@ -358,7 +366,21 @@ func cmdCheck(args []string) int {
 	trusted = append(trusted, "kvc itself (translation of the typed AST to SMT, weakest-precondition/loop-cutting scheme)", "z3 4.8.12 / z3 5.1.0 / cvc5 1.0.3",
 		"Go integers are treated as mathematical integers", "slices have value semantics (no aliasing of backing arrays across the functions under contract)")
 	if prog != nil {
-		trusted = append(trusted, prog.Trusted...)
+		// only the assumptions introduced by the contract files of the packages this property's functions live in
+		pkgsUsed := map[string]bool{}
+		for _, key := range ps.Functions {
+			if fi := byKey[key]; fi != nil && fi.Pkg != nil {
+				pkgsUsed[fi.Pkg.PkgPath] = true
+			}
+		}
+		for _, mp := range ps.MapOrder {
+			pkgsUsed[mp] = true
+		}
+		for _, t := range prog.Trusted {
+			if pk, ok := prog.TrustedPkg[t]; !ok || len(pkgsUsed) == 0 || pkgsUsed[pk] {
+				trusted = append(trusted, t)
+			}
+		}
 	}
 	var dl []string
 	for k, n := range dropped {
